@@ -37,9 +37,9 @@ v('c09-attr-key-crossed','R-C09.2',U,"""    return {
         'before_evolutions': set(getattr(module, 'AFTER_EVOLUTIONS', [])),""",note='app-level AFTER/BEFORE crossed')
 v('c09-consumer-key-typo','R-C09.2',G,"deps.get('after_migrations', [])","deps.get('after_migration', [])")
 v('c09-move-deps-before','R-C09.2','mutations/move_to_django_migrations.py',"            'after_migrations': set(","            'before_migrations': set(")
-v('c09-deps-unsorted','R-C09.3',G,"""                        stack += sorted(node.dependencies,
-                                        key=lambda dep: dep.insert_index,
-                                        reverse=True)""","""                        stack += node.dependencies""")
+v('c09-deps-unsorted','R-C09.3',G,"""                        for dep in sorted(node.dependencies,
+                                          key=lambda dep: dep.insert_index,
+                                          reverse=True):""","""                        for dep in node.dependencies:""")
 v('c09-leaves-unsorted','R-C09.3',G,"""        return sorted(
             [
                 node
@@ -61,12 +61,24 @@ v('c09-batch-drops-tail','R-C09.4',G,"""        if batch_nodes:
             yield batch_type, batch_nodes
 
     def _add_create_model""","""    def _add_create_model""")
-# silent / fixed forms
-v('c09-s-cycle-error-added','R-C09.5',G,"""                        # re-scan the dependencies again.
-                        stack.append(node)""","""                        # re-scan the dependencies again.
-                        if node in stack:
-                            raise ValueError('Dependency cycle at %r' % node)
+v('c09-no-back-edge-raise','R-C09.5',G,"""                            if dep in processed and dep not in visited:""","""                            if False and dep in processed:""",expect='fire',note='hmm: guard constant-false') if False else None
+v('c09-back-edge-raise-removed','R-C09.5',G,"""                            if dep in processed and dep not in visited:
+                                # This dependency is still waiting on its
+                                # own dependencies, which means it's one of
+                                # this node's ancestors in the walk. These
+                                # requirements can't all be satisfied.
+                                raise EvolutionException(
+                                    'A circular dependency was found: "%s" '
+                                    'and "%s" each (directly or indirectly) '
+                                    'require the other to be applied first.'
+                                    % (node.key, dep.key))
 
-                        stack.append(node)""",expect='silent',note='an error path appears: the known finding goes stale, nothing new fires')
+""","",note='cycle reachable from a leaf is emitted in a requirement-breaking order again')
+v('c09-back-edge-wrong-set','R-C09.5',G,"                            if dep in processed and dep not in visited:","                            if dep in result_set and dep not in visited:",note='tests the emitted set: never true for an ancestor')
+v('c09-completeness-removed','R-C09.5',G,"""        if len(result) != len(self._nodes):""","""        if len(result) > len(self._nodes):""",note='never true: unreachable cycles silently dropped again')
+v('c09-completeness-bypassed','R-C09.5',G,"""        if len(result) != len(self._nodes):""","""        if not result:
+            return result
+
+        if len(result) != len(self._nodes):""",note='the pure-cycle case returns [] before the check')
 json.dump(V, open(os.path.dirname(os.path.abspath(__file__))+'/variants_c09.json','w'), indent=1)
 print(len(V))
